@@ -322,11 +322,18 @@ def teq(a, b, sk: Skolems):
             return False
         n = len(a.bounds)
         mark = sk.mark()
-        for perm in itertools.permutations(range(n)):
+        try:
+            for perm in itertools.permutations(range(n)):
+                sk.reset(mark)
+                if _red_eq(a, b, perm, sk):
+                    return True
+            return False
+        finally:
+            # Skolem indices are allocated by nesting depth: sibling reductions share them (the obligation is
+            # universally quantified over every Skolem, and  forall r. P(r) and Q(r)  is  (forall r. P(r)) and
+            # (forall r. Q(r)) ), only nested reductions need further ones.  Keeps a term with many reductions
+            # from forking 3^(number of reductions) ways.
             sk.reset(mark)
-            if _red_eq(a, b, perm, sk):
-                return True
-        return False
     ta, tb = isinstance(a, tuple), isinstance(b, tuple)
     if ta and tb:
         if len(a) != len(b):
